@@ -58,6 +58,29 @@ CHECKS = {
         ref="DESIGN.md section 3 (C13)"),
 }
 
+CHECKS["C11"] = dict(
+    technique="twin comparison by tensor-formula inference (forward-mode grid version vs reverse-mode pointwise version) with named grid axes",
+    text="For the same opaque network, the SPINN/forward and PINN/reverse versions of the 4 operator pairs, the 5 built-in equations "
+         "that have both branches and the dynamic / boundary / initial-condition / normalisation loss terms yield the same polynomial at "
+         "every grid index; grid axes are named after their coordinate so a permuted axis order (time not first, xy instead of ij) is "
+         "a finding. Decides equality of formulas, not of floating-point grids.",
+    ref="DESIGN.md section 3 (C11)")
+CHECKS["C12"] = dict(
+    technique="formula inference with row-dependency tracking of parameter atoms + direct abstract evaluation of the parameter helpers and heterogeneity wrappers",
+    text="Every occurrence of an equation parameter inside every term (top level and inside each network call) is the batch's row atom iff "
+         "its key is batched - for every subset of batched keys, single and system losses, observed parameters; "
+         "_get_vmap_in_axes_params/_update_eq_params_dict decided on all key subsets; heterogeneity wrappers replace exactly the declared "
+         "entries with the user function's value at the point, called with the documented arguments. Undefined locals and writes into the "
+         "caller's parameters on these paths are findings of the interpreter.",
+    ref="DESIGN.md section 3 (C12)")
+CHECKS["C20"] = dict(
+    technique="effect analysis on the AST over the call-graph closure of the entry points + abstract interpretation with frozen arguments",
+    text="No function reachable from evaluate/__call__/get_batch/*_batch/dynamic-loss and network wrappers stores into, deletes from or calls "
+         "a mutating method on an object reachable from its parameters (alias-aware, fixture-checked), none uses global/nonlocal/wall-clock/"
+         "host randomness; evaluating the five loss classes with deep-frozen arguments for every combination of optional batch parts performs "
+         "no write. Equality eager == jit == value_and_grad primal is JAX's contract for pure functions and is not re-decided.",
+    ref="DESIGN.md section 3 (C20)")
+
 UNDER_CONSTRUCTION = "check under construction in this build round; not yet claimed"
 NA = {}
 
